@@ -126,6 +126,32 @@ func ApplySchemas(w *World, schemas []string, prop string) {
 			}
 		}
 	}
+	// mapinv declarations: every function storing into a map of the declared type carries the obligation
+	for _, mi := range w.Spec.MapInvs {
+		if !hasProp(strings.Split(mi[3], ","), prop) {
+			continue
+		}
+		for _, f := range w.FnAll {
+			touches := false
+			for _, b := range f.Blocks {
+				for _, ins := range b.Instrs {
+					if x, ok := ins.(*ssa.MapUpdate); ok {
+						if m, ok := x.Map.Type().Underlying().(*types.Map); ok {
+							for _, mj := range w.mapInvsFor(m) {
+								if mj == mi {
+									touches = true
+								}
+							}
+						}
+					}
+				}
+			}
+			if touches {
+				c := w.contractFor(w.FnName(f))
+				c.ExtraProps = append(c.ExtraProps, prop)
+			}
+		}
+	}
 	props := []string{prop}
 	for _, s := range schemas {
 		switch {
